@@ -170,6 +170,9 @@ def call_args(draw, name):
     if name in WITH_CI:
         W = draw(matrix(WITH_CI[name]))
         ci = draw(labels(len(W)))
+        shp = draw(st.sampled_from(["column", "flat", "flat", "row"]))          # the docstrings speak of Nx1 vectors
+        if shp != "flat":
+            ci = ci.reshape((-1, 1) if shp == "column" else (1, -1))
         if name == "modularity_und_sign":
             return [W, ci], {"qtype": draw(st.sampled_from(["sta", "smp", "gja", "pos", "neg"]))}
         return [W, ci], {}
